@@ -354,6 +354,19 @@ class Rewriter:
                     return ('let __ms_%s = %s.%s(%s);\n            let mut __i_%s: usize = 0;\n            while __i_%s < __ms_%s.len() {\n                %s%s    __i_%s += 1;\n            }' %
                             (x, recv, vecfn, args, x, x, x, bind, body, x))
                 text = self._rewrite_counted(text, hdr, build)
+            elif frag.startswith('extiterpair:'):
+                # R9: for (A, B) in RECV.ITERFN() { body } with ITERFN a std iterator of Copy pairs (str::char_indices) ->
+                #     let __ms_A = VECFN(&RECV); index loop, (A, B) bound by value
+                iterfn, vecfn = frag[len('extiterpair:'):].split('=')
+                hdr = r'\bfor\s*\(\s*(\w+)\s*,\s*(\w+)\s*\)\s*in\s+(.+?)\.' + re.escape(iterfn) + r'\(\)\s*\{'
+
+                def build(mm, body, iterfn=iterfn, vecfn=vecfn):
+                    a, b, recv = mm.group(1), mm.group(2), mm.group(3).strip()
+                    self.log.append(('R9', 'for (%s, %s) in %s.%s() -> collected vector %s(&%s) + index loop' % (a, b, recv, iterfn, vecfn, recv)))
+                    body = self._with_step(body, '__i_%s += 1;' % a)
+                    return ('let __ms_%s = %s(&%s);\n        let mut __i_%s: usize = 0;\n        while __i_%s < __ms_%s.len() {\n            let (%s, %s) = __ms_%s[__i_%s];%s    __i_%s += 1;\n        }' %
+                            (a, vecfn, recv, a, a, a, a, b, a, a, body, a))
+                text = self._rewrite_counted(text, hdr, build)
             elif frag.startswith('extpairs:'):
                 # R9: for (A, B) in MAPVAR { body } over a borrowed map -> let __ms = MAPVAR.VECFN(); index loop, A/B bound by reference
                 mapvar, vecfn = frag[len('extpairs:'):].split('=')
